@@ -82,8 +82,31 @@ Proof.
   f_equal. rewrite map_map. apply map_ext. intros [n p]. cbn. rewrite freeze_param_idem. reflexivity.
 Qed.
 
-Lemma lock_key_freeze s r : lock_key (freeze s r) = lock_key r.
+(* freezing never changes the key, whatever the store the key is computed in (a resumable PUT has no
+   preconditions to freeze; the key of every other request does not depend on the store) *)
+Lemma lock_key_freeze s' s r : lock_key s' (freeze s r) = lock_key s' r.
 Proof. destruct r; reflexivity. Qed.
+
+(* the key of every request but a resumable PUT is a function of the request alone *)
+Definition key_static (r : req) : Prop := match r with RResumablePut _ _ _ => False | _ => True end.
+
+Lemma lock_key_static s s' r : key_static r -> lock_key s r = lock_key s' r.
+Proof. destruct r; cbn; tauto. Qed.
+
+Lemma key_static_freeze s r : key_static r -> key_static (freeze s r).
+Proof. destruct r; cbn; auto. Qed.
+
+(* a resumable PUT has a key exactly when its session exists and points to that object (and the
+   PUT completes the upload with an acceptable declared MD5) *)
+Lemma resumable_target_some s id cr d k : resumable_target s id cr d = Some k ->
+  exists u, alookup id (s_uploads s) = Some u /\ (up_bucket u, up_name u) = k.
+Proof.
+  unfold resumable_target. destruct (alookup id (s_uploads s)) as [u|]; [|discriminate].
+  destruct cr as [cr|]; [|discriminate]. destruct (parse_byte_range cr) as [br|]; [|discriminate].
+  destruct (resume_apply (up_data u) br d) as [d'|]; [|discriminate].
+  destruct (resume_done br d'); [|discriminate]. intros H. exists u. split; [reflexivity|].
+  destruct (up_md5 u) as [|[[p|p|]|[p|p|]|]]; congruence.
+Qed.
 
 (* ================================================================== *)
 (* 1. One scheduler step, case by case                                  *)
@@ -115,9 +138,11 @@ Definition effect_resp (s : state) (e : geffect) : resp :=
   | EAdd b n o => resp_meta (apply_geffect s e) b n
   end.
 
-(* the effect of the commit of a thread parked at its yield *)
-Definition hold_effect (r : req) (cap : option obj) : geffect :=
-  match r, cap, lock_key r with
+(* the effect of the commit of a thread parked at its yield.  [s] is the store at the commit step:
+   as in gstep's GHold branch the key is recomputed there, and is used for compose only (whose key
+   does not depend on the store); a parked resumable PUT simply runs its handler *)
+Definition hold_effect (s : state) (r : req) (cap : option obj) : geffect :=
+  match r, cap, lock_key s r with
   | RCompose _ _ _ _ _ _, Some o, Some k => EAdd (fst k) (snd k) o
   | _, _, _ => EHandle r
   end.
@@ -128,10 +153,10 @@ Definition capture (s : state) (r : req) (k : str * str) : option obj :=
   | _ => None
   end.
 
-(* a request served in one step from GNew *)
+(* a request served in one step from GNew (the key is computed in the store of that step) *)
 Definition atomic_cond (s : state) (hs : list ((str * str) * nat)) (r : req) : Prop :=
-  lock_key r = None
-  \/ exists k, lock_key r = Some k /\ (gearly s r = true \/ (holder_of hs k = None /\ reaches_yield s r = false)).
+  lock_key s r = None
+  \/ exists k, lock_key s r = Some k /\ (gearly s r = true \/ (holder_of hs k = None /\ reaches_yield s r = false)).
 
 (* why a step does nothing: no such thread, nothing left to do, or (never, under the lock
    invariant) the thread itself already holds the key *)
@@ -141,7 +166,7 @@ Definition idle_reason (st : gstate) (i : nat) : Prop :=
   | Some th => match gt_todo th with
                | [] => True
                | r0 :: _ => gt_prog th = GNew
-                            /\ exists k, lock_key (freeze (g_store st) r0) = Some k
+                            /\ exists k, lock_key (g_store st) (freeze (g_store st) r0) = Some k
                                          /\ holder_of (g_holders st) k = Some i
                end
   end.
@@ -150,14 +175,14 @@ Inductive gstep_spec (st : gstate) (i : nat) : gstate -> outcome -> Prop :=
 | GS_idle : idle_reason st i -> gstep_spec st i st OIdle
 | GS_blocked th r0 rest k j :
     nth_error (g_threads st) i = Some th -> gt_todo th = r0 :: rest -> gt_prog th = GNew ->
-    lock_key (freeze (g_store st) r0) = Some k -> gearly (g_store st) (freeze (g_store st) r0) = false ->
+    lock_key (g_store st) (freeze (g_store st) r0) = Some k -> gearly (g_store st) (freeze (g_store st) r0) = false ->
     holder_of (g_holders st) k = Some j -> j <> i ->
     gstep_spec st i
       (mkGState (g_store st) (g_holders st)
                 (upd_nth (g_threads st) i (mkGThread (freeze (g_store st) r0 :: rest) GNew))) OBlocked
 | GS_at th r0 rest k :
     nth_error (g_threads st) i = Some th -> gt_todo th = r0 :: rest -> gt_prog th = GNew ->
-    lock_key (freeze (g_store st) r0) = Some k -> gearly (g_store st) (freeze (g_store st) r0) = false ->
+    lock_key (g_store st) (freeze (g_store st) r0) = Some k -> gearly (g_store st) (freeze (g_store st) r0) = false ->
     holder_of (g_holders st) k = None ->
     reaches_yield (g_store st) (freeze (g_store st) r0) = true ->
     gstep_spec st i
@@ -176,10 +201,10 @@ Inductive gstep_spec (st : gstate) (i : nat) : gstate -> outcome -> Prop :=
 | GS_commit th r rest cap :
     nth_error (g_threads st) i = Some th -> gt_todo th = r :: rest -> gt_prog th = GHold cap ->
     gstep_spec st i
-      (mkGState (apply_geffect (g_store st) (hold_effect r cap))
+      (mkGState (apply_geffect (g_store st) (hold_effect (g_store st) r cap))
                 (release (g_holders st) i)
                 (upd_nth (g_threads st) i (mkGThread rest GNew)))
-      (ODone (effect_resp (g_store st) (hold_effect r cap))).
+      (ODone (effect_resp (g_store st) (hold_effect (g_store st) r cap))).
 
 Lemma gstep_spec_ok st i : gstep_spec st i (fst (gstep st i)) (snd (gstep st i)).
 Proof.
@@ -189,7 +214,7 @@ Proof.
   destruct (gt_prog th) as [|cap] eqn:Eprog.
   - (* GNew *)
     set (s := g_store st). set (r := freeze s r0).
-    destruct (lock_key r) as [k|] eqn:Ek.
+    destruct (lock_key s r) as [k|] eqn:Ek.
     + match goal with |- context [if ?e then _ else _] => change e with (gearly s r) end.
       destruct (gearly s r) eqn:Eearly.
       * destruct (handle s r) as [s' rsp] eqn:Eh. cbn [fst snd].
@@ -213,9 +238,9 @@ Proof.
   - (* GHold *)
     set (s := g_store st).
     assert (Hgoal : forall st' o, (st', o) =
-        (mkGState (apply_geffect s (hold_effect r0 cap)) (release (g_holders st) i)
+        (mkGState (apply_geffect s (hold_effect s r0 cap)) (release (g_holders st) i)
                   (upd_nth (g_threads st) i (mkGThread rest GNew)),
-         ODone (effect_resp s (hold_effect r0 cap))) ->
+         ODone (effect_resp s (hold_effect s r0 cap))) ->
         gstep_spec st i (fst (st', o)) (snd (st', o))).
     { intros st' o E. rewrite E. cbn [fst snd]. eapply GS_commit; eauto. }
     apply Hgoal. unfold hold_effect.
@@ -240,16 +265,24 @@ Qed.
 (* ================================================================== *)
 (* 2. The lock invariant (item 1)                                       *)
 
+(* thread i is parked at its yield on a request r that locked k.  The key was computed in the store
+   of the step that took the lock (GS_at), which for a resumable PUT need not be the present store
+   (other PUTs of the same session may have changed the bytes held since): hence "in some store".
+   For every other request the key does not depend on the store (lock_key_static). *)
 Definition holds_key (st : gstate) (i : nat) (k : str * str) : Prop :=
   exists th r rest cap, nth_error (g_threads st) i = Some th /\ gt_todo th = r :: rest
-    /\ gt_prog th = GHold cap /\ lock_key r = Some k.
+    /\ gt_prog th = GHold cap /\ exists s, lock_key s r = Some k.
 
+(* the holders list is the record of the keys taken: every entry is a parked thread whose request
+   locked that key, and every parked thread has its entry (exactly one, by gi_thr).  For requests
+   with a store-independent key this is the equivalence "(k, i) is a holder iff thread i is parked
+   on a request whose key is k": glock_inv_iff_static below. *)
 Record glock_inv (st : gstate) : Prop := mkGInv {
   gi_keys : NoDup (map fst (g_holders st));          (* at most one holder per object key *)
   gi_thr : NoDup (map snd (g_holders st));           (* a thread holds at most one lock *)
-  gi_iff : forall k i, In (k, i) (g_holders st) <-> holds_key st i k;
+  gi_in : forall k i, In (k, i) (g_holders st) -> holds_key st i k;
   gi_hold : forall i th cap, nth_error (g_threads st) i = Some th -> gt_prog th = GHold cap ->
-            exists r rest k, gt_todo th = r :: rest /\ lock_key r = Some k }.
+            exists r rest k, gt_todo th = r :: rest /\ In (k, i) (g_holders st) }.
 
 Lemma NoDup_map_filter {A B} (f : A -> B) (p : A -> bool) l : NoDup (map f l) -> NoDup (map f (filter p l)).
 Proof.
@@ -276,8 +309,33 @@ Lemma not_holding_if_new st i th : glock_inv st -> nth_error (g_threads st) i = 
   ~ In i (map snd (g_holders st)).
 Proof.
   intros Hinv Hth Hp Hin. apply in_map_iff in Hin. destruct Hin as [[k j] [E Hin]]. cbn in E. subst j.
-  apply (gi_iff _ Hinv) in Hin. destruct Hin as [th' [r [rest [cap [H1 [H2 [H3 H4]]]]]]].
+  apply (gi_in _ Hinv) in Hin. destruct Hin as [th' [r [rest [cap [H1 [H2 [H3 H4]]]]]]].
   rewrite Hth in H1. injection H1 as <-. congruence.
+Qed.
+
+Lemma holders_thr_inj st k k' i : glock_inv st -> In (k, i) (g_holders st) -> In (k', i) (g_holders st) -> k = k'.
+Proof.
+  intros Hinv. pose proof (gi_thr _ Hinv) as Hnd. induction (g_holders st) as [|[k0 i0] r IH]; intros H1 H2; [destruct H1|].
+  cbn [map snd] in Hnd. inversion Hnd as [|x y Hn Hr]; subst.
+  destruct H1 as [H1|H1], H2 as [H2|H2]; try congruence; auto.
+  - injection H1 as -> ->. exfalso. apply Hn. apply in_map_iff. exists (k', i). auto.
+  - injection H2 as -> ->. exfalso. apply Hn. apply in_map_iff. exists (k, i). auto.
+Qed.
+
+(* the equivalence of the former invariant, for requests whose key does not depend on the store:
+   (k, i) is a holder iff thread i is parked on a request whose key (in any store) is k *)
+Lemma glock_inv_iff_static st i th r rest cap : glock_inv st ->
+  nth_error (g_threads st) i = Some th -> gt_todo th = r :: rest -> gt_prog th = GHold cap -> key_static r ->
+  forall k s, In (k, i) (g_holders st) <-> lock_key s r = Some k.
+Proof.
+  intros Hinv Hth Htodo Hprog Hst k s. split.
+  - intros Hin. apply (gi_in _ Hinv) in Hin. destruct Hin as [th' [r' [rest' [cap' [H1 [H2 [H3 [s' H4]]]]]]]].
+    rewrite Hth in H1. injection H1 as <-. rewrite Htodo in H2. injection H2 as <- <-.
+    rewrite (lock_key_static s s' r Hst). exact H4.
+  - intros Hk. destruct (gi_hold _ Hinv _ _ _ Hth Hprog) as [r' [rest' [k' [H1 H2]]]].
+    pose proof (gi_in _ Hinv _ _ H2) as [th' [r'' [rest'' [cap' [H3 [H4 [H5 [s' H6]]]]]]]].
+    rewrite Hth in H3. injection H3 as <-. rewrite Htodo in H4. injection H4 as <- <-.
+    rewrite (lock_key_static s' s r Hst), Hk in H6. injection H6 as <-. exact H2.
 Qed.
 
 (* after a step that ends a request (holders released, thread back to GNew) *)
@@ -287,12 +345,13 @@ Proof.
   intros Hinv Hth. constructor; cbn [g_holders g_threads].
   - apply NoDup_map_filter. apply (gi_keys _ Hinv).
   - apply NoDup_map_filter. apply (gi_thr _ Hinv).
-  - intros k j. rewrite release_in. destruct (Nat.eq_dec j i) as [->|Hne].
-    + split; [intros [_ H]; congruence|]. intros H. exfalso. eapply holds_key_upd_new; eauto.
-    + rewrite holds_key_upd_other by exact Hne. rewrite (gi_iff _ Hinv). tauto.
+  - intros k j Hin. apply release_in in Hin. destruct Hin as [Hin Hne].
+    rewrite holds_key_upd_other by exact Hne. apply (gi_in _ Hinv). exact Hin.
   - intros j th' cap Hj Hp. destruct (Nat.eq_dec j i) as [->|Hne].
     + rewrite (nth_error_upd_same _ _ _ _ Hth) in Hj. injection Hj as <-. discriminate.
-    + rewrite nth_error_upd_other in Hj by exact Hne. eapply (gi_hold _ Hinv); eauto.
+    + rewrite nth_error_upd_other in Hj by exact Hne.
+      destruct (gi_hold _ Hinv _ _ _ Hj Hp) as [r [rest [k [H1 H2]]]]. exists r, rest, k. split; [exact H1|].
+      apply release_in. auto.
 Qed.
 
 Theorem glock_inv_step st i st' o : glock_inv st -> gstep_spec st i st' o -> glock_inv st'.
@@ -306,11 +365,9 @@ Proof.
     constructor; cbn [g_holders g_threads].
     + apply (gi_keys _ Hinv).
     + apply (gi_thr _ Hinv).
-    + intros k' j'. destruct (Nat.eq_dec j' i) as [->|Hne].
-      * split.
-        -- intros Hin. exfalso. eapply not_holding_if_new; eauto. apply in_map_iff. exists (k', i). auto.
-        -- intros H. exfalso. eapply holds_key_upd_new; eauto.
-      * rewrite holds_key_upd_other by exact Hne. apply (gi_iff _ Hinv).
+    + intros k' j' Hin. destruct (Nat.eq_dec j' i) as [->|Hne].
+      * exfalso. eapply not_holding_if_new; eauto. apply in_map_iff. exists (k', i). auto.
+      * rewrite holds_key_upd_other by exact Hne. apply (gi_in _ Hinv). exact Hin.
     + intros j' th' cap Hj Hp. destruct (Nat.eq_dec j' i) as [->|Hne].
       * rewrite (nth_error_upd_same _ _ _ _ Hth) in Hj. injection Hj as <-. discriminate.
       * rewrite nth_error_upd_other in Hj by exact Hne. eapply (gi_hold _ Hinv); eauto.
@@ -320,19 +377,17 @@ Proof.
     + constructor; [apply holder_of_none; exact Hho|apply (gi_keys _ Hinv)].
     + constructor; [exact Hni|apply (gi_thr _ Hinv)].
     + intros k' j'. cbn [In]. destruct (Nat.eq_dec j' i) as [->|Hne].
-      * split.
-        -- intros [E|Hin].
-           ++ injection E as <-. eexists _, _, _, _. cbn [g_threads].
-              rewrite (nth_error_upd_same _ _ _ _ Hth). repeat split; cbn; eauto.
-           ++ exfalso. apply Hni. apply in_map_iff. exists (k', i). auto.
-        -- intros [th' [r [rest' [cap [H1 [H2 [H3 H4]]]]]]]. cbn [g_threads] in H1.
-           rewrite (nth_error_upd_same _ _ _ _ Hth) in H1. injection H1 as <-. cbn in H2.
-           injection H2 as <- <-. left. congruence.
-      * rewrite holds_key_upd_other by exact Hne. rewrite <- (gi_iff _ Hinv). split; [|tauto].
-        intros [E|Hin]; [congruence|exact Hin].
+      * intros [E|Hin].
+        -- injection E as <-. eexists _, _, _, _. cbn [g_threads].
+           rewrite (nth_error_upd_same _ _ _ _ Hth). repeat split; cbn; eauto.
+        -- exfalso. apply Hni. apply in_map_iff. exists (k', i). auto.
+      * rewrite holds_key_upd_other by exact Hne. intros [E|Hin]; [congruence|]. apply (gi_in _ Hinv). exact Hin.
     + intros j' th' cap Hj Hp. destruct (Nat.eq_dec j' i) as [->|Hne].
-      * rewrite (nth_error_upd_same _ _ _ _ Hth) in Hj. injection Hj as <-. cbn. eauto.
-      * rewrite nth_error_upd_other in Hj by exact Hne. eapply (gi_hold _ Hinv); eauto.
+      * rewrite (nth_error_upd_same _ _ _ _ Hth) in Hj. injection Hj as <-. cbn [gt_todo]. eexists _, _, k.
+        split; [reflexivity|]. left. reflexivity.
+      * rewrite nth_error_upd_other in Hj by exact Hne.
+        destruct (gi_hold _ Hinv _ _ _ Hj Hp) as [r [rest' [k' [H1 H2]]]]. exists r, rest', k'. split; [exact H1|].
+        right. exact H2.
   - eapply glock_inv_finish; eauto.
   - eapply glock_inv_finish; eauto.
 Qed.
@@ -351,8 +406,7 @@ Proof.
   assert (Hnew : forall i th, nth_error (g_threads (init_g s0 progs)) i = Some th -> gt_prog th = GNew).
   { intros i th H. cbn in H. apply nth_error_In in H. apply in_map_iff in H. destruct H as [rs [<- _]]. reflexivity. }
   constructor; cbn [init_g g_holders map]; try constructor.
-  - intros [].
-  - intros [th [r [rest [cap [H1 [_ [H3 _]]]]]]]. apply Hnew in H1. congruence.
+  - intros k i [].
   - intros i th cap H1 H2. apply Hnew in H1. congruence.
 Qed.
 
@@ -368,18 +422,20 @@ Proof.
 Qed.
 
 (* a blocked step: the key is held by ANOTHER thread (parked at its yield), and nothing changes
-   but the freezing of the head request of thread i *)
+   but the freezing of the head request of thread i.  The key is the key of the request in the
+   store of that step, g_store st, as gstep computes it (for a resumable PUT: the object of its
+   session, when the PUT is the completing one) *)
 Theorem gstep_blocked_spec st i : glock_inv st -> snd (gstep st i) = OBlocked ->
   exists th r0 rest k j,
     nth_error (g_threads st) i = Some th /\ gt_todo th = r0 :: rest /\ gt_prog th = GNew
-    /\ lock_key r0 = Some k /\ j <> i /\ In (k, j) (g_holders st) /\ holds_key st j k
+    /\ lock_key (g_store st) r0 = Some k /\ j <> i /\ In (k, j) (g_holders st) /\ holds_key st j k
     /\ fst (gstep st i) = mkGState (g_store st) (g_holders st)
                             (upd_nth (g_threads st) i (mkGThread (freeze (g_store st) r0 :: rest) GNew)).
 Proof.
   intros Hinv Ho. pose proof (gstep_spec_ok st i) as Hs. rewrite Ho in Hs.
   inversion Hs as [| th r0 rest k j Hth Htodo Hprog Hk Hearly Hho Hji | | |]; subst.
   exists th, r0, rest, k, j. rewrite lock_key_freeze in Hk. apply holder_of_some in Hho.
-  repeat split; auto. apply (gi_iff _ Hinv). exact Hho.
+  repeat split; auto. apply (gi_in _ Hinv). exact Hho.
 Qed.
 
 (* store, holders and the other threads are unchanged by a step that is not a commit *)
@@ -405,7 +461,7 @@ Definition cur_req (st : gstate) (i : nat) : option (req * gprogress) :=
    serves the request at once *)
 Definition step_effect (st : gstate) (i : nat) : option geffect :=
   match snd (gstep st i), cur_req st i with
-  | ODone _, Some (r, GHold cap) => Some (hold_effect r cap)
+  | ODone _, Some (r, GHold cap) => Some (hold_effect (g_store st) r cap)
   | ODone _, Some (r, GNew) => Some (EHandle r)
   | _, _ => None
   end.
@@ -437,9 +493,9 @@ Qed.
 
 Lemma gstep_hold st i th r rest cap :
   nth_error (g_threads st) i = Some th -> gt_todo th = r :: rest -> gt_prog th = GHold cap ->
-  gstep st i = (mkGState (apply_geffect (g_store st) (hold_effect r cap)) (release (g_holders st) i)
+  gstep st i = (mkGState (apply_geffect (g_store st) (hold_effect (g_store st) r cap)) (release (g_holders st) i)
                          (upd_nth (g_threads st) i (mkGThread rest GNew)),
-                ODone (effect_resp (g_store st) (hold_effect r cap))).
+                ODone (effect_resp (g_store st) (hold_effect (g_store st) r cap))).
 Proof.
   intros Hth Htodo Hprog. unfold gstep. rewrite Hth, Htodo, Hprog. set (s := g_store st). unfold hold_effect.
   destruct r; try (destruct (handle s _) as [s' rsp] eqn:Eh; cbn [apply_geffect effect_resp]; rewrite Eh; reflexivity).
@@ -450,7 +506,7 @@ Qed.
 
 Lemma step_effect_hold st i th r rest cap :
   nth_error (g_threads st) i = Some th -> gt_todo th = r :: rest -> gt_prog th = GHold cap ->
-  step_effect st i = Some (hold_effect r cap).
+  step_effect st i = Some (hold_effect (g_store st) r cap).
 Proof.
   intros Hth Htodo Hprog. unfold step_effect, cur_req. rewrite (gstep_hold _ _ _ _ _ _ Hth Htodo Hprog), Hth, Htodo, Hprog.
   reflexivity.
@@ -553,7 +609,7 @@ Definition not_compose (r : req) : Prop := match r with RCompose _ _ _ _ _ _ => 
 Lemma not_compose_freeze s r : not_compose r -> not_compose (freeze s r).
 Proof. destruct r; cbn; auto. Qed.
 
-Lemma hold_effect_not_compose r cap : not_compose r -> hold_effect r cap = EHandle r.
+Lemma hold_effect_not_compose s r cap : not_compose r -> hold_effect s r cap = EHandle r.
 Proof. destruct r; cbn; tauto. Qed.
 
 (* the linearisation: the frozen requests, in the order of their commit steps *)
@@ -707,11 +763,13 @@ Qed.
 (* ---- compose: the weaker, true fact ---- *)
 
 (* the capture step: every source exists (and passes its generation condition) in ONE store
-   state, the store at that step, and the parked thread holds their concatenation *)
+   state, the store at that step, and the parked thread holds their concatenation.  (The key of a
+   compose is the parsed destination; it does not depend on the store, g_store st is the store
+   gstep computes it in at this step.) *)
 Theorem compose_capture st i b dst bad srcs dm cp :
   cur_req st i = Some (RCompose b dst bad srcs dm cp, GNew) -> snd (gstep st i) = OAt ->
   exists dstname,
-    lock_key (RCompose b dst bad srcs dm cp) = Some (b, dstname)
+    lock_key (g_store st) (RCompose b dst bad srcs dm cp) = Some (b, dstname)
     /\ Forall (src_usable (g_store st) b) srcs
     /\ g_store (fst (gstep st i)) = g_store st
     /\ cur_req (fst (gstep st i)) i
@@ -731,10 +789,11 @@ Proof.
   cbn [fst snd]. rewrite find_obj_store_add_same. reflexivity.
 Qed.
 
-(* the commit: what was captured is stored, with a generation fresh at COMMIT time *)
+(* the commit: what was captured is stored, with a generation fresh at COMMIT time (the key is
+   recomputed by gstep in the store of the commit step; for compose it is store-independent) *)
 Theorem compose_commit st i b dst bad srcs dm cp o d :
   cur_req st i = Some (RCompose b dst bad srcs dm cp, GHold (Some o)) ->
-  lock_key (RCompose b dst bad srcs dm cp) = Some (b, d) ->
+  lock_key (g_store st) (RCompose b dst bad srcs dm cp) = Some (b, d) ->
   let s := g_store st in
   let o' := mkObj (o_data o) (o_ctype o) (s_clock s + 1) 1 (o_md5 o) (o_meta o) in
   step_effect st i = Some (EAdd b d o)
@@ -1015,22 +1074,28 @@ Qed.
 (* ================================================================== *)
 (* 6. The lock protects the object from check to mutation (items 5, 6)  *)
 
-(* requests that take the object lock of what they change.  In the model a resumable PUT that
-   completes an upload, and a bucket deletion, change objects WITHOUT taking their lock
-   (see held_object_stable_refuted_* below) *)
+(* requests that take the object lock of what they change: every request but a bucket deletion,
+   which removes the objects of the bucket WITHOUT taking their locks (see
+   held_object_stable_refuted_delete_bucket below).  The PUT that completes a resumable upload
+   takes the lock of its session's object (finishUpload; Conc.resumable_target). *)
 Definition lock_respecting (r : req) : Prop :=
-  match r with RResumablePut _ _ _ | RDeleteBucket _ _ => False | _ => True end.
+  match r with RDeleteBucket _ _ => False | _ => True end.
 
 Lemma lock_respecting_freeze s r : lock_respecting r -> lock_respecting (freeze s r).
 Proof. destruct r; cbn; auto. Qed.
 
-Definition effect_key (e : geffect) : option (str * str) :=
-  match e with EHandle r => lock_key r | EAdd b n _ => Some (b, n) end.
+(* the key of an effect, computed in the store the effect is applied to (the store of the commit
+   step: that is where gstep runs the handler) *)
+Definition effect_key (s : state) (e : geffect) : option (str * str) :=
+  match e with EHandle r => lock_key s r | EAdd b n _ => Some (b, n) end.
 Definition effect_respecting (e : geffect) : Prop :=
   match e with EHandle r => lock_respecting r | EAdd _ _ _ => True end.
 
-(* a lock-respecting handler changes no object but the one whose lock it takes *)
-Lemma handle_frame_key s r b n : lock_respecting r -> lock_key r <> Some (b, n) ->
+(* a lock-respecting handler, run in store s, changes no object but the one whose lock the request
+   takes in s.  For a resumable PUT: the handler changes an object only through finish_upload on
+   (up_bucket u, up_name u), reached exactly when resumable_target s is that key (a declared MD5
+   of kind 2/3 makes finish_upload refuse without storing) *)
+Lemma handle_frame_key s r b n : lock_respecting r -> lock_key s r <> Some (b, n) ->
   find_obj (fst (handle s r)) b n = find_obj s b n.
 Proof.
   intros Hl Hk.
@@ -1039,6 +1104,22 @@ Proof.
   destruct r; cbn [lock_respecting] in Hl; try contradiction;
     try (apply Hgen; [cbn [targets lock_key] in *; intros [E|[]]; apply Hk; f_equal; exact E|cbn; discriminate]);
     try (apply Hgen; [cbn; tauto|cbn; discriminate]).
+  - (* resumable PUT *)
+    clear Hgen. cbn [lock_key] in Hk. unfold resumable_target in Hk. cbn [handle]. revert Hk.
+    destruct (alookup id (s_uploads s)) as [u|]; [|intros _; reflexivity].
+    destruct crange as [cr|]; [|intros _; reflexivity].
+    destruct (parse_byte_range cr) as [br|]; [|intros _; reflexivity].
+    destruct (resume_apply (up_data u) br data) as [data'|]; [|intros _; reflexivity].
+    destruct (resume_done br data'); [|intros _; reflexivity].
+    intros Hk.
+    match goal with
+    | |- context [finish_upload ?s1 ?b0 ?n0 ?ct ?md ?meta ?d ?c] =>
+        assert (HF : find_obj (fst (finish_upload s1 b0 n0 ct md meta d c)) b n = find_obj s b n);
+          [|destruct (finish_upload s1 b0 n0 ct md meta d c) as [s2 rsp]]
+    end.
+    + destruct (up_md5 u) as [|[[p|p|]|[p|p|]|]]; cbn in Hk;
+        try (rewrite finish_upload_other; [reflexivity|congruence]); reflexivity.
+    + cbn [fst] in HF. destruct (Z.eqb (r_status rsp) 200); cbn [fst]; exact HF.
   - (* compose *)
     apply Hgen; [|cbn; discriminate]. cbn [targets lock_key] in *.
     destruct (split (dst ++ s_compose) s_compose) as [|d0 [|d1 [|d2 ds]]]; cbn; try tauto.
@@ -1052,7 +1133,7 @@ Proof.
       intros [E|[]]. apply Hk. f_equal. exact E.
 Qed.
 
-Lemma effect_frame s e b n : effect_respecting e -> effect_key e <> Some (b, n) ->
+Lemma effect_frame s e b n : effect_respecting e -> effect_key s e <> Some (b, n) ->
   find_obj (apply_geffect s e) b n = find_obj s b n.
 Proof.
   destruct e as [r|b0 n0 o]; cbn [effect_respecting effect_key apply_geffect]; intros Hl Hk.
@@ -1087,11 +1168,444 @@ Proof.
   - injection H2 as -> ->. exfalso. apply Hn. apply in_map_iff. exists (k, i). auto.
 Qed.
 
-(* a commit of another thread either is on another key or leaves the store as it is *)
-Lemma other_commit_other_key st i j k e : glock_inv st -> In (k, i) (g_holders st) -> j <> i ->
-  step_effect st j = Some e -> effect_key e <> Some k \/ apply_geffect (g_store st) e = g_store st.
+(* ---- the sessions of resumable uploads ---- *)
+
+(* A parked resumable PUT commits by running its handler, which looks its session up AGAIN: the
+   object it stores is the object of the session at commit time, while the lock it holds is the
+   lock of the session's object at the time it parked.  The two agree as long as a session id is
+   never re-used for another object, which is what the id counter guarantees in well-formed stores
+   (sessions_wf below; true of init_state and preserved by every handler as long as the counter
+   stays below int64_max — print_int is injective only on a bounded range). *)
+
+Definition sess_key (u : upload) : str * str := (up_bucket u, up_name u).
+Definition sess_part (s : state) : list (str * upload) * Z := (s_uploads s, s_upcount s).
+
+(* an id the counter has already handed out *)
+Definition id_old (s : state) (sid : str) : Prop :=
+  exists z, sid = print_int z /\ 0 <= z <= s_upcount s.
+
+Definition sessions_wf (s : state) : Prop :=
+  asorted (s_uploads s) /\ 0 <= s_upcount s
+  /\ forall sid u, alookup sid (s_uploads s) = Some u -> id_old s sid.
+
+Lemma sess_part_uploads s' s : sess_part s' = sess_part s -> s_uploads s' = s_uploads s.
+Proof. intros E. exact (f_equal fst E). Qed.
+Lemma sess_part_upcount s' s : sess_part s' = sess_part s -> s_upcount s' = s_upcount s.
+Proof. intros E. exact (f_equal snd E). Qed.
+
+Lemma sessions_wf_init : sessions_wf init_state.
+Proof. split; [constructor|]. split; [cbn; lia|]. intros sid u H. discriminate. Qed.
+
+Lemma print_int_inj z1 z2 : int64_min <= z1 <= int64_max -> int64_min <= z2 <= int64_max ->
+  print_int z1 = print_int z2 -> z1 = z2.
+Proof. intros H1 H2 E. apply parse_print_int_roundtrip in H1, H2. rewrite E in H1. congruence. Qed.
+
+Lemma create_bucket_sess s b : sess_part (create_bucket s b) = sess_part s.
+Proof. unfold create_bucket. destruct (get_bucket s b); reflexivity. Qed.
+
+Lemma store_add_sess s b n data ct md meta : sess_part (store_add s b n data ct md meta) = sess_part s.
+Proof. unfold store_add, sess_part. cbn [s_uploads s_upcount]. apply (create_bucket_sess s b). Qed.
+
+Lemma finish_upload_sess s b n ct md meta data c :
+  sess_part (fst (finish_upload s b n ct md meta data c)) = sess_part s.
 Proof.
-  intros Hinv Hki Hne. unfold step_effect, cur_req.
+  unfold finish_upload.
+  destruct md as [|p]; [|destruct p as [p|p|]; try destruct p; cbn [fst]; auto];
+    (destruct (validate_conds _ c); cbn [fst]; auto using store_add_sess).
+Qed.
+
+Definition touches_sessions (r : req) : Prop :=
+  match r with RResumableInit _ _ _ _ | RResumablePut _ _ _ => True | _ => False end.
+
+(* only the two resumable-upload requests touch the sessions and the id counter *)
+Lemma handle_sess_frame s r : ~ touches_sessions r -> sess_part (fst (handle s r)) = sess_part s.
+Proof.
+  intros Hn.
+  destruct r as [b n ctype data cp | b m data cp | b cp | b bad m cp | id crange data | b n | b n | b n cp
+                | b n p cp | b prefix delim cursor maxres | b | b dst bad srcs dm cp | b1 n1 b2 n2 | b | b | b cp];
+    cbn [touches_sessions] in Hn; try (exfalso; apply Hn; exact I); cbn [handle].
+  - destruct (resolve_conds s cp); [|reflexivity]. destruct n; [reflexivity|]. apply finish_upload_sess.
+  - destruct (resolve_conds s cp); [|reflexivity]. apply finish_upload_sess.
+  - destruct (resolve_conds s cp); reflexivity.
+  - destruct (find_obj s b n); reflexivity.
+  - destruct (find_obj s b n); reflexivity.
+  - destruct (resolve_conds s cp); [|reflexivity].
+    destruct (validate_conds _ c); try reflexivity.
+    unfold store_delete_obj. destruct (get_bucket s b) as [bk|]; [|reflexivity].
+    destruct (alookup n bk); reflexivity.
+  - destruct (resolve_conds s cp); [|reflexivity].
+    destruct (find_obj s b n) as [o|]; [|reflexivity].
+    destruct (validate_conds _ c); try reflexivity.
+    destruct (pt_bad p); [reflexivity|]. cbn [fst].
+    unfold store_put_obj. destruct (get_bucket s b); reflexivity.
+  - destruct maxres as [ms|].
+    + destruct (parse_int ms) as [z|]; [|reflexivity]. destruct (z <? 1); [reflexivity|].
+      destruct (get_bucket s b); [|reflexivity]. destruct (list_walk _ _ _ _ _) as [[f p] m]. reflexivity.
+    + destruct (get_bucket s b); [|reflexivity]. destruct (list_walk _ _ _ _ _) as [[f p] m]. reflexivity.
+  - reflexivity.
+  - destruct (resolve_conds s cp); [|reflexivity]. destruct bad; [reflexivity|].
+    destruct (split _ _) as [|d0 [|d1 [|d2 ds]]]; try reflexivity.
+    destruct (_ >? _); [reflexivity|].
+    destruct (fold_left _ srcs _) as [[code data]|]; [|reflexivity].
+    destruct code; try reflexivity.
+    destruct (validate_conds _ c); try reflexivity.
+    destruct dm as [m|]; cbn [fst]; apply store_add_sess.
+  - destruct (contains _ _); [reflexivity|].
+    destruct (split _ _) as [|f1 [|rest [|x xs]]]; try reflexivity.
+    destruct (split2 _ _) as [|b2' [|f2 [|y ys]]]; try reflexivity.
+    destruct (find_obj s b1 f1) as [o|]; [|reflexivity].
+    destruct (find_obj _ b2' f2); cbn [fst]; apply store_add_sess.
+  - cbn [fst]. apply create_bucket_sess.
+  - destruct (get_bucket s b); reflexivity.
+  - destruct (resolve_conds s cp); [|reflexivity].
+    destruct (validate_conds _ c); try reflexivity.
+    unfold store_delete_bucket. destruct (get_bucket s b); reflexivity.
+Qed.
+
+(* what a handler does to the sessions: a session found afterwards was there before, for the same
+   object, or it is the one session created by this request under the next id of the counter *)
+Lemma handle_sessions s r sid u' : asorted (s_uploads s) ->
+  alookup sid (s_uploads (fst (handle s r))) = Some u' ->
+  (exists u, alookup sid (s_uploads s) = Some u /\ sess_key u = sess_key u')
+  \/ (sid = print_int (s_upcount s + 1) /\ s_upcount (fst (handle s r)) = s_upcount s + 1).
+Proof.
+  intros Hs.
+  assert (Hsame : alookup sid (s_uploads s) = Some u' ->
+          (exists u, alookup sid (s_uploads s) = Some u /\ sess_key u = sess_key u')
+          \/ (sid = print_int (s_upcount s + 1) /\ s_upcount (fst (handle s r)) = s_upcount s + 1)).
+  { intros H. left. exists u'. auto. }
+  destruct r as [b n ctype data cp | b m data cp | b cp | b bad m cp | id crange data | b n | b n | b n cp
+                | b n p cp | b prefix delim cursor maxres | b | b dst bad srcs dm cp | b1 n1 b2 n2 | b | b | b cp];
+    try (match goal with |- context [handle s ?r] =>
+           pose proof (handle_sess_frame s r ltac:(cbn; tauto)) as E end;
+         pose proof (sess_part_uploads _ _ E) as E1; pose proof (sess_part_upcount _ _ E) as E2; rewrite E1; exact Hsame).
+  - (* init *)
+    revert Hsame. cbn [handle]. destruct (resolve_conds s cp); [|auto]. destruct bad; [auto|].
+    cbn [fst set_uploads s_uploads s_upcount]. intros _ Hl.
+    destruct (beqb sid (print_int (s_upcount s + 1))) eqn:E.
+    + apply beqb_eq in E. right. split; [exact E|reflexivity].
+    + apply beqb_neq in E. rewrite alookup_ainsert_other in Hl by exact E. left. exists u'. auto.
+  - (* put *)
+    revert Hsame. cbn [handle].
+    destruct (alookup id (s_uploads s)) as [u0|] eqn:Eu; [|auto].
+    destruct crange as [cr|]; [|auto].
+    destruct (parse_byte_range cr) as [br|]; [|auto].
+    destruct (resume_apply (up_data u0) br data) as [data'|]; [|auto].
+    intros _.
+    match goal with |- context [set_uploads s ?c ?ups] => set (s1 := set_uploads s c ups) end.
+    assert (H1 : forall u'', alookup sid (s_uploads s1) = Some u'' ->
+                   exists u, alookup sid (s_uploads s) = Some u /\ sess_key u = sess_key u'').
+    { intros u'' H. subst s1. cbn [set_uploads s_uploads] in H. destruct (beqb sid id) eqn:E.
+      - apply beqb_eq in E. subst sid. rewrite alookup_ainsert_same in H. injection H as <-.
+        exists u0. split; [exact Eu|reflexivity].
+      - apply beqb_neq in E. rewrite alookup_ainsert_other in H by exact E. exists u''. auto. }
+    assert (Hs1 : asorted (s_uploads s1)) by (subst s1; cbn [set_uploads s_uploads]; apply ainsert_sorted; exact Hs).
+    destruct (resume_done br data'); [|cbn [fst]; intros Hl; left; apply H1; exact Hl].
+    match goal with
+    | |- context [finish_upload s1 ?b ?n ?ct ?md ?meta ?d ?c] =>
+        pose proof (finish_upload_sess s1 b n ct md meta d c) as HF;
+        destruct (finish_upload s1 b n ct md meta d c) as [s2 rsp]
+    end.
+    cbn [fst] in HF. pose proof (sess_part_uploads _ _ HF) as HF1. pose proof (sess_part_upcount _ _ HF) as HF2.
+    destruct (Z.eqb (r_status rsp) 200); cbn [fst set_uploads s_uploads]; rewrite HF1; intros Hl; left; apply H1.
+    + destruct (beqb sid id) eqn:E.
+      * apply beqb_eq in E. subst sid. rewrite alookup_aremove_same in Hl by exact Hs1. discriminate.
+      * apply beqb_neq in E. rewrite alookup_aremove_other in Hl by exact E. exact Hl.
+    + exact Hl.
+Qed.
+
+Lemma handle_upcount s r : s_upcount s <= s_upcount (fst (handle s r)) <= s_upcount s + 1.
+Proof.
+  destruct r as [b n ctype data cp | b m data cp | b cp | b bad m cp | id crange data | b n | b n | b n cp
+                | b n p cp | b prefix delim cursor maxres | b | b dst bad srcs dm cp | b1 n1 b2 n2 | b | b | b cp];
+    try (match goal with |- context [handle s ?r] =>
+           pose proof (handle_sess_frame s r ltac:(cbn; tauto)) as E end;
+         pose proof (sess_part_uploads _ _ E) as E1; pose proof (sess_part_upcount _ _ E) as E2; rewrite E2; lia).
+  - cbn [handle]. destruct (resolve_conds s cp); [|cbn; lia]. destruct bad; cbn; lia.
+  - cbn [handle].
+    destruct (alookup id (s_uploads s)) as [u0|]; [|cbn; lia].
+    destruct crange as [cr|]; [|cbn; lia].
+    destruct (parse_byte_range cr) as [br|]; [|cbn; lia].
+    destruct (resume_apply (up_data u0) br data) as [data'|]; [|cbn; lia].
+    match goal with |- context [set_uploads s ?c ?ups] => set (s1 := set_uploads s c ups) end.
+    destruct (resume_done br data'); [|cbn; lia].
+    match goal with
+    | |- context [finish_upload s1 ?b ?n ?ct ?md ?meta ?d ?c] =>
+        pose proof (finish_upload_sess s1 b n ct md meta d c) as HF;
+        destruct (finish_upload s1 b n ct md meta d c) as [s2 rsp]
+    end.
+    cbn [fst] in HF. pose proof (sess_part_uploads _ _ HF) as HF1. pose proof (sess_part_upcount _ _ HF) as HF2.
+    destruct (Z.eqb (r_status rsp) 200); cbn [fst set_uploads s_upcount]; rewrite HF2; cbn; lia.
+Qed.
+
+Lemma handle_uploads_sorted s r : asorted (s_uploads s) -> asorted (s_uploads (fst (handle s r))).
+Proof.
+  intros Hs.
+  destruct r as [b n ctype data cp | b m data cp | b cp | b bad m cp | id crange data | b n | b n | b n cp
+                | b n p cp | b prefix delim cursor maxres | b | b dst bad srcs dm cp | b1 n1 b2 n2 | b | b | b cp];
+    try (match goal with |- context [handle s ?r] =>
+           pose proof (handle_sess_frame s r ltac:(cbn; tauto)) as E end;
+         pose proof (sess_part_uploads _ _ E) as E1; pose proof (sess_part_upcount _ _ E) as E2; rewrite E1; exact Hs).
+  - cbn [handle]. destruct (resolve_conds s cp); [|exact Hs]. destruct bad; [exact Hs|].
+    cbn. apply ainsert_sorted. exact Hs.
+  - cbn [handle].
+    destruct (alookup id (s_uploads s)) as [u0|]; [|exact Hs].
+    destruct crange as [cr|]; [|exact Hs].
+    destruct (parse_byte_range cr) as [br|]; [|exact Hs].
+    destruct (resume_apply (up_data u0) br data) as [data'|]; [|exact Hs].
+    match goal with |- context [set_uploads s ?c ?ups] => set (s1 := set_uploads s c ups) end.
+    assert (Hs1 : asorted (s_uploads s1)) by (subst s1; cbn [set_uploads s_uploads]; apply ainsert_sorted; exact Hs).
+    destruct (resume_done br data'); [|exact Hs1].
+    match goal with
+    | |- context [finish_upload s1 ?b ?n ?ct ?md ?meta ?d ?c] =>
+        pose proof (finish_upload_sess s1 b n ct md meta d c) as HF;
+        destruct (finish_upload s1 b n ct md meta d c) as [s2 rsp]
+    end.
+    cbn [fst] in HF. pose proof (sess_part_uploads _ _ HF) as HF1. pose proof (sess_part_upcount _ _ HF) as HF2.
+    destruct (Z.eqb (r_status rsp) 200); cbn [fst set_uploads s_uploads]; rewrite HF1; [apply aremove_sorted|]; exact Hs1.
+Qed.
+
+(* the same three facts for commit effects *)
+Lemma effect_sessions s e sid u' : asorted (s_uploads s) ->
+  alookup sid (s_uploads (apply_geffect s e)) = Some u' ->
+  (exists u, alookup sid (s_uploads s) = Some u /\ sess_key u = sess_key u')
+  \/ (sid = print_int (s_upcount s + 1) /\ s_upcount (apply_geffect s e) = s_upcount s + 1).
+Proof.
+  destruct e as [r|b n o]; cbn [apply_geffect]; [apply handle_sessions|].
+  intros _ H. pose proof (store_add_sess s b n (o_data o) (o_ctype o) (o_md5 o) (o_meta o)) as E.
+  pose proof (sess_part_uploads _ _ E) as E1. pose proof (sess_part_upcount _ _ E) as E2. rewrite E1 in H. left. exists u'. auto.
+Qed.
+
+Lemma effect_upcount s e : s_upcount s <= s_upcount (apply_geffect s e) <= s_upcount s + 1.
+Proof.
+  destruct e as [r|b n o]; cbn [apply_geffect]; [apply handle_upcount|].
+  pose proof (store_add_sess s b n (o_data o) (o_ctype o) (o_md5 o) (o_meta o)) as E.
+  pose proof (sess_part_uploads _ _ E) as E1. pose proof (sess_part_upcount _ _ E) as E2. rewrite E2. lia.
+Qed.
+
+Lemma effect_uploads_sorted s e : asorted (s_uploads s) -> asorted (s_uploads (apply_geffect s e)).
+Proof.
+  destruct e as [r|b n o]; cbn [apply_geffect]; [apply handle_uploads_sorted|].
+  pose proof (store_add_sess s b n (o_data o) (o_ctype o) (o_md5 o) (o_meta o)) as E.
+  pose proof (sess_part_uploads _ _ E) as E1. pose proof (sess_part_upcount _ _ E) as E2. rewrite E1. auto.
+Qed.
+
+Lemma id_old_mono s s' sid : s_upcount s <= s_upcount s' -> id_old s sid -> id_old s' sid.
+Proof. intros H [z [E Hz]]. exists z. split; [exact E|lia]. Qed.
+
+Theorem effect_sessions_wf s e : sessions_wf s -> sessions_wf (apply_geffect s e).
+Proof.
+  intros [Hs [H0 Hold]]. pose proof (effect_upcount s e) as Hc.
+  split; [apply effect_uploads_sorted; exact Hs|]. split; [lia|].
+  intros sid u' Hl. destruct (effect_sessions s e sid u' Hs Hl) as [[u [Hu _]]|[E Hn]].
+  - eapply id_old_mono; [|eapply Hold; exact Hu]. lia.
+  - exists (s_upcount s + 1). split; [exact E|lia].
+Qed.
+
+Theorem handle_sessions_wf s r : sessions_wf s -> sessions_wf (fst (handle s r)).
+Proof. apply (effect_sessions_wf s (EHandle r)). Qed.
+
+(* a session under an id already handed out keeps its object: the counter never hands the id out
+   again (below int64_max) *)
+Theorem effect_old_session s e sid u' : sessions_wf s -> s_upcount s < int64_max -> id_old s sid ->
+  alookup sid (s_uploads (apply_geffect s e)) = Some u' ->
+  exists u, alookup sid (s_uploads s) = Some u /\ sess_key u = sess_key u'.
+Proof.
+  intros [Hs [H0 _]] Hb [z [E Hz]] Hl. destruct (effect_sessions s e sid u' Hs Hl) as [H|[E' _]]; [exact H|].
+  exfalso. rewrite E in E'. apply print_int_inj in E'; unfold int64_min, int64_max in *; lia.
+Qed.
+
+(* thread i is parked on a resumable PUT of session sid, holding key k *)
+Definition parked_put (st : gstate) (i : nat) (sid : str) (k : str * str) : Prop :=
+  exists th cr d rest cap, nth_error (g_threads st) i = Some th /\ gt_todo th = RResumablePut sid cr d :: rest
+    /\ gt_prog th = GHold cap /\ In (k, i) (g_holders st).
+
+(* the session of a parked resumable PUT, if it (still) exists, is a session for the object whose
+   lock the thread holds: what the PUT will store at its commit is the object it locked *)
+Definition sess_coherent (st : gstate) : Prop :=
+  forall i sid k u, parked_put st i sid k -> alookup sid (s_uploads (g_store st)) = Some u -> sess_key u = k.
+
+(* the invariant that keeps it so along a run *)
+Definition gsess_inv (st : gstate) : Prop :=
+  sessions_wf (g_store st) /\ sess_coherent st
+  /\ forall i sid k, parked_put st i sid k -> id_old (g_store st) sid.
+
+Lemma gsess_inv_coherent st : gsess_inv st -> sess_coherent st.
+Proof. intros [_ [H _]]. exact H. Qed.
+
+(* without resumable PUTs the coherence is vacuous *)
+Lemma sess_coherent_static st : all_reqs key_static st -> sess_coherent st.
+Proof.
+  intros Hall i sid k u [th [cr [d [rest [cap [H1 [H2 _]]]]]]] _. exfalso.
+  apply nth_error_In in H1. apply Hall in H1. rewrite H2 in H1. inversion H1 as [|x y Hx Hy]. exact Hx.
+Qed.
+
+Lemma parked_put_upd_new s' hs' st i th0 todo j sid k : nth_error (g_threads st) i = Some th0 ->
+  (forall k0 j0, In (k0, j0) hs' -> In (k0, j0) (g_holders st)) ->
+  parked_put (mkGState s' hs' (upd_nth (g_threads st) i (mkGThread todo GNew))) j sid k -> parked_put st j sid k.
+Proof.
+  intros Hth Hsub [th [cr [d [rest [cap [H1 [H2 [H3 H4]]]]]]]]. cbn [g_threads g_holders] in *.
+  destruct (Nat.eq_dec j i) as [->|Hne].
+  - rewrite (nth_error_upd_same _ _ _ _ Hth) in H1. injection H1 as <-. cbn in H3. discriminate.
+  - rewrite nth_error_upd_other in H1 by exact Hne. exists th, cr, d, rest, cap. auto.
+Qed.
+
+Theorem gsess_inv_step st i st' o : glock_inv st -> gsess_inv st -> s_upcount (g_store st) < int64_max ->
+  gstep_spec st i st' o -> gsess_inv st'.
+Proof.
+  intros Hinv [Hwf [Hcoh Hold]] Hb Hs.
+  (* a step that ends a request: the store moves by one effect, parked threads stay parked *)
+  assert (Hfin : forall th e todo, nth_error (g_threads st) i = Some th ->
+            gsess_inv (mkGState (apply_geffect (g_store st) e) (release (g_holders st) i)
+                                (upd_nth (g_threads st) i (mkGThread todo GNew)))).
+  { intros th e todo Hth.
+    assert (Hpp : forall j sid k, parked_put (mkGState (apply_geffect (g_store st) e) (release (g_holders st) i)
+                                    (upd_nth (g_threads st) i (mkGThread todo GNew))) j sid k -> parked_put st j sid k).
+    { intros j sid k. apply (parked_put_upd_new _ _ st i th); [exact Hth|].
+      intros k0 j0 H. apply release_in in H. tauto. }
+    split; [cbn [g_store]; apply effect_sessions_wf; exact Hwf|]. split.
+    - intros j sid k u' Hp Hl. cbn [g_store] in Hl. apply Hpp in Hp.
+      destruct (effect_old_session _ e sid u' Hwf Hb (Hold _ _ _ Hp) Hl) as [u [Hu Hk]].
+      rewrite <- Hk. eapply Hcoh; eauto.
+    - intros j sid k Hp. cbn [g_store]. apply Hpp in Hp. eapply id_old_mono; [|eapply Hold; exact Hp].
+      apply effect_upcount. }
+  destruct Hs as [Hid|th r0 rest k0 j' Hth Htodo Hprog Hk Hearly Hho Hji
+                  |th r0 rest k0 Hth Htodo Hprog Hk Hearly Hho Hry
+                  |th r0 rest Hth Htodo Hprog Hat
+                  |th r rest cap Hth Htodo Hprog].
+  - split; [exact Hwf|]. split; assumption.
+  - (* blocked *)
+    assert (Hpp : forall j sid k, parked_put (mkGState (g_store st) (g_holders st)
+               (upd_nth (g_threads st) i (mkGThread (freeze (g_store st) r0 :: rest) GNew))) j sid k -> parked_put st j sid k).
+    { intros j sid k. apply (parked_put_upd_new _ _ st i th); auto. }
+    split; [exact Hwf|]. split.
+    + intros j sid k u Hp Hl. apply Hpp in Hp. eapply Hcoh; eauto.
+    + intros j sid k Hp. apply Hpp in Hp. eapply Hold; eauto.
+  - (* the lock is taken: a resumable PUT parks on the object of its session as it is NOW *)
+    pose proof (not_holding_if_new st i th Hinv Hth Hprog) as Hni.
+    assert (Hpp : forall j sid k, parked_put (mkGState (g_store st) ((k0, i) :: g_holders st)
+               (upd_nth (g_threads st) i (mkGThread (freeze (g_store st) r0 :: rest)
+                  (GHold (capture (g_store st) (freeze (g_store st) r0) k0))))) j sid k ->
+             parked_put st j sid k
+             \/ exists u, alookup sid (s_uploads (g_store st)) = Some u /\ sess_key u = k).
+    { intros j sid k [th' [cr [d [rest' [cap [H1 [H2 [H3 H4]]]]]]]]. cbn [g_threads g_holders] in *.
+      destruct (Nat.eq_dec j i) as [->|Hne].
+      - right. rewrite (nth_error_upd_same _ _ _ _ Hth) in H1. injection H1 as <-. cbn [gt_todo] in H2.
+        injection H2 as E _. destruct H4 as [H4|H4]; [|exfalso; apply Hni; apply in_map_iff; exists (k, i); auto].
+        injection H4 as <-. rewrite E in Hk. cbn [lock_key] in Hk. apply resumable_target_some in Hk. exact Hk.
+      - left. rewrite nth_error_upd_other in H1 by exact Hne. exists th', cr, d, rest', cap.
+        repeat split; auto. destruct H4 as [H4|H4]; [congruence|exact H4]. }
+    split; [exact Hwf|]. split.
+    + intros j sid k u Hp Hl. cbn [g_store] in Hl. destruct (Hpp _ _ _ Hp) as [Hp'|[u0 [Hu0 Hk0]]].
+      * eapply Hcoh; eauto.
+      * congruence.
+    + intros j sid k Hp. cbn [g_store]. destruct (Hpp _ _ _ Hp) as [Hp'|[u0 [Hu0 Hk0]]].
+      * eapply Hold; eauto.
+      * destruct Hwf as [_ [_ Hw]]. eapply Hw; eauto.
+  - eapply Hfin; eauto.
+  - eapply Hfin; eauto.
+Qed.
+
+Lemma gstep_upcount st i : s_upcount (g_store st) <= s_upcount (g_store (fst (gstep st i))) <= s_upcount (g_store st) + 1.
+Proof. rewrite step_effect_store. destruct (step_effect st i) as [e|]; [apply effect_upcount|lia]. Qed.
+
+Theorem gsess_inv_gstep st i : glock_inv st -> gsess_inv st -> s_upcount (g_store st) < int64_max ->
+  gsess_inv (fst (gstep st i)).
+Proof. intros H1 H2 H3. eapply gsess_inv_step; eauto using gstep_spec_ok. Qed.
+
+Lemma gsess_inv_init s0 progs : sessions_wf s0 -> gsess_inv (init_g s0 progs).
+Proof.
+  intros Hwf.
+  assert (Hno : forall i sid k, ~ parked_put (init_g s0 progs) i sid k).
+  { intros i sid k [th [cr [d [rest [cap [H1 [_ [H3 _]]]]]]]]. cbn in H1. apply nth_error_In in H1.
+    apply in_map_iff in H1. destruct H1 as [rs [<- _]]. discriminate. }
+  split; [exact Hwf|]. split.
+  - intros i sid k u Hp. exfalso. eapply Hno; eauto.
+  - intros i sid k Hp. exfalso. eapply Hno; eauto.
+Qed.
+
+Theorem gsess_inv_grun sched : forall st, glock_inv st -> gsess_inv st ->
+  s_upcount (g_store st) + Z.of_nat (length sched) <= int64_max -> gsess_inv (fst (grun st sched)).
+Proof.
+  induction sched as [|j rest IH]; intros st Hinv H Hb; [exact H|]. rewrite grun_cons. cbn [fst].
+  pose proof (gstep_upcount st j) as Hc. cbn [length] in Hb.
+  apply IH; [apply glock_inv_gstep; exact Hinv|apply gsess_inv_gstep; auto; lia|lia].
+Qed.
+
+(* the session invariant holds in every state reachable from a well-formed store (init_state is
+   one), as long as the schedule is not long enough to exhaust the id counter *)
+Theorem gsess_inv_reachable s0 progs sched : sessions_wf s0 ->
+  s_upcount s0 + Z.of_nat (length sched) <= int64_max -> gsess_inv (fst (grun (init_g s0 progs) sched)).
+Proof. intros Hwf Hb. apply gsess_inv_grun; [apply glock_inv_init|apply gsess_inv_init; exact Hwf|exact Hb]. Qed.
+
+(* the guard of the theorems below, for a run of n more steps: either no thread ever issues a
+   resumable PUT (the former guard), or the session invariant holds and the id counter cannot reach
+   int64_max within n steps (every step hands out at most one id) *)
+Definition sess_safe (n : nat) (st : gstate) : Prop :=
+  all_reqs key_static st
+  \/ (gsess_inv st /\ s_upcount (g_store st) + Z.of_nat n <= int64_max).
+
+Lemma sess_safe_coherent n st : sess_safe n st -> sess_coherent st.
+Proof. intros [H|[H _]]; [apply sess_coherent_static; exact H|apply gsess_inv_coherent; exact H]. Qed.
+
+Lemma sess_safe_gstep n st j : glock_inv st -> sess_safe (S n) st -> sess_safe n (fst (gstep st j)).
+Proof.
+  intros Hinv [H|[H Hb]].
+  - left. apply all_reqs_gstep; auto using key_static_freeze.
+  - right. pose proof (gstep_upcount st j) as Hc. split; [apply gsess_inv_gstep; auto; lia|lia].
+Qed.
+
+Lemma sess_safe_grun sched : forall n st, glock_inv st -> sess_safe (length sched + n) st ->
+  sess_safe n (fst (grun st sched)).
+Proof.
+  induction sched as [|j rest IH]; intros n st Hinv H; [exact H|]. rewrite grun_cons. cbn [fst].
+  apply IH; [apply glock_inv_gstep; exact Hinv|]. apply sess_safe_gstep; [exact Hinv|exact H].
+Qed.
+
+(* from a well-formed initial store (init_state is one) the guard holds in every reachable state,
+   as long as the schedule is not long enough to exhaust the id counter *)
+Theorem sess_safe_reachable s0 progs sched n : sessions_wf s0 ->
+  s_upcount s0 + Z.of_nat (length sched + n) <= int64_max ->
+  sess_safe n (fst (grun (init_g s0 progs) sched)).
+Proof.
+  intros Hwf Hb. apply sess_safe_grun; [apply glock_inv_init|]. right. split; [apply gsess_inv_init; exact Hwf|exact Hb].
+Qed.
+
+(* ---- held_object_stable ---- *)
+
+(* the key of the effect of a parked thread, against the key it holds *)
+Lemma hold_effect_key s s0 r cap k' k : lock_key s0 r = Some k' -> effect_key s (hold_effect s r cap) = Some k ->
+  (key_static r /\ k = k') \/ (exists sid cr d, r = RResumablePut sid cr d /\ lock_key s r = Some k).
+Proof.
+  intros H0 He.
+  destruct r; try (left; split; [exact I|]; cbn [hold_effect effect_key lock_key] in *; congruence).
+  - right. cbn [hold_effect effect_key] in He. eauto.
+  - left. split; [exact I|]. unfold hold_effect in He.
+    pose proof (lock_key_static s s0 (RCompose b dst bad srcs dm cp) I) as Es. rewrite H0 in Es.
+    destruct cap as [o|]; [rewrite Es in He|]; cbn [effect_key] in He.
+    + destruct k'; cbn [fst snd] in He. congruence.
+    + congruence.
+Qed.
+
+(* the effect of the commit of a parked thread is on the key the thread holds *)
+Lemma held_effect_key st i th r rest cap k' k : glock_inv st -> sess_coherent st ->
+  nth_error (g_threads st) i = Some th -> gt_todo th = r :: rest -> gt_prog th = GHold cap ->
+  In (k', i) (g_holders st) ->
+  effect_key (g_store st) (hold_effect (g_store st) r cap) = Some k -> k = k'.
+Proof.
+  intros Hinv Hcoh Hth Htodo Hprog Hin Hek.
+  destruct (gi_in _ Hinv _ _ Hin) as [th' [r'' [rest'' [cap' [H1 [H2 [H3 [s0 H4]]]]]]]].
+  rewrite Hth in H1. injection H1 as <-. rewrite Htodo in H2. injection H2 as <- <-.
+  destruct (hold_effect_key _ _ _ _ _ _ H4 Hek) as [[_ E]|[sid [cr [d [Er Hks]]]]]; [exact E|].
+  subst r. cbn [lock_key] in Hks. apply resumable_target_some in Hks. destruct Hks as [u [Hu Huk]].
+  rewrite <- Huk. apply (Hcoh i sid k' u); [|exact Hu]. exists th, cr, d, rest, cap. auto.
+Qed.
+
+(* a commit of another thread either is on another key or leaves the store as it is *)
+Lemma other_commit_other_key st i j k e : glock_inv st -> sess_coherent st -> In (k, i) (g_holders st) -> j <> i ->
+  step_effect st j = Some e -> effect_key (g_store st) e <> Some k \/ apply_geffect (g_store st) e = g_store st.
+Proof.
+  intros Hinv Hcoh Hki Hne. unfold step_effect, cur_req.
   destruct (gstep_spec_ok st j) as [|th r0 rest k' j' Hth Htodo Hprog Hk Hearly Hho Hji
                                          |th r0 rest k' Hth Htodo Hprog Hk Hearly Hho Hry
                                          |th r0 rest Hth Htodo Hprog Hat
@@ -1103,25 +1617,41 @@ Proof.
     + left. rewrite Hk. intros E. injection E as ->. apply holder_of_none in Hho. apply Hho.
       apply in_map_iff. exists (k, i). auto.
   - rewrite Hth, Htodo, Hprog. intros E. injection E as <-. left.
-    destruct (gi_hold _ Hinv _ _ _ Hth Hprog) as [r' [rest' [k' [Ht Hk]]]]. rewrite Htodo in Ht. injection Ht as <- <-.
-    assert (Hin : In (k', j) (g_holders st)).
-    { apply (gi_iff _ Hinv). exists th, r, rest, cap. auto. }
-    assert (Hek : effect_key (hold_effect r cap) = Some k').
-    { unfold hold_effect. destruct r; cbn [effect_key]; try exact Hk. destruct cap; [|exact Hk].
-      rewrite Hk. cbn [effect_key]. destruct k'; reflexivity. }
-    rewrite Hek. intros E. injection E as ->. apply Hne. eapply holders_key_inj; eauto.
+    destruct (gi_hold _ Hinv _ _ _ Hth Hprog) as [r' [rest' [k' [Ht Hin]]]]. rewrite Htodo in Ht. injection Ht as <- <-.
+    intros Hek. apply Hne. symmetry. apply (holders_key_inj st k i j Hinv Hki).
+    rewrite (held_effect_key st j th r rest cap k' k Hinv Hcoh Hth Htodo Hprog Hin Hek). exact Hin.
 Qed.
 
-(* held_object_stable: while thread i holds the lock of (b, n), steps of other threads do not
-   change object (b, n) *)
-Theorem held_object_stable st i j b n : glock_inv st -> all_reqs lock_respecting st ->
+(* held_object_stable, full statement — FALSE in this model for arbitrary states, see
+   held_object_stable_refuted_stale_session (and, for bucket deletions, ..._refuted_delete_bucket):
+     forall st i j b n, glock_inv st -> all_reqs lock_respecting st ->
+       In ((b, n), i) (g_holders st) -> j <> i ->
+       find_obj (g_store (fst (gstep st j))) b n = find_obj (g_store st) b n.
+   Proved with the exact guard sess_coherent st: the session of every parked resumable PUT still is
+   a session for the object the thread locked.  The guard holds whenever no resumable PUT is parked
+   (sess_coherent_static: this is the former theorem), and in every state reachable from a
+   well-formed store (sess_safe_reachable, sess_safe_coherent). *)
+Theorem held_object_stable_partial st i j b n : glock_inv st -> sess_coherent st -> all_reqs lock_respecting st ->
   In ((b, n), i) (g_holders st) -> j <> i ->
   find_obj (g_store (fst (gstep st j))) b n = find_obj (g_store st) b n.
 Proof.
-  intros Hinv Hall Hki Hne. rewrite step_effect_store. destruct (step_effect st j) as [e|] eqn:E; [|reflexivity].
-  destruct (other_commit_other_key st i j (b, n) e Hinv Hki Hne E) as [H|H].
+  intros Hinv Hcoh Hall Hki Hne. rewrite step_effect_store. destruct (step_effect st j) as [e|] eqn:E; [|reflexivity].
+  destruct (other_commit_other_key st i j (b, n) e Hinv Hcoh Hki Hne E) as [H|H].
   - apply effect_frame; [|exact H]. eapply step_effect_respecting; eauto.
   - rewrite H. reflexivity.
+Qed.
+
+(* and the commit of the holder itself changes no object but the one it holds: in particular the
+   parked PUT of a resumable upload stores the object it locked *)
+Theorem commit_changes_only_held_object st i k b n : glock_inv st -> sess_coherent st ->
+  all_reqs lock_respecting st -> In (k, i) (g_holders st) -> (b, n) <> k ->
+  find_obj (g_store (fst (gstep st i))) b n = find_obj (g_store st) b n.
+Proof.
+  intros Hinv Hcoh Hall Hin Hne.
+  destruct (gi_in _ Hinv _ _ Hin) as [th [r [rest [cap [Hth [Htodo [Hprog _]]]]]]].
+  pose proof (step_effect_hold st i th r rest cap Hth Htodo Hprog) as E.
+  rewrite step_effect_store, E. apply effect_frame; [eapply step_effect_respecting; eauto|].
+  intros Hek. apply Hne. exact (held_effect_key st i th r rest cap k (b, n) Hinv Hcoh Hth Htodo Hprog Hin Hek).
 Qed.
 
 Lemma holder_kept st i j k : In (k, i) (g_holders st) -> j <> i -> In (k, i) (g_holders (fst (gstep st j))).
@@ -1132,21 +1662,38 @@ Proof.
   - apply release_in. auto.
 Qed.
 
-Theorem held_object_stable_run mid : forall st i b n, glock_inv st -> all_reqs lock_respecting st ->
+(* held_object_stable_run, full statement (false for the same reason): the same without the guard
+   sess_safe (length mid) st. *)
+Theorem held_object_stable_run_partial mid : forall st i b n, glock_inv st -> all_reqs lock_respecting st ->
+  sess_safe (length mid) st ->
   In ((b, n), i) (g_holders st) -> Forall (fun j => j <> i) mid ->
   let st' := fst (grun st mid) in
   find_obj (g_store st') b n = find_obj (g_store st) b n
   /\ In ((b, n), i) (g_holders st')
   /\ nth_error (g_threads st') i = nth_error (g_threads st) i.
 Proof.
-  induction mid as [|j rest IH]; intros st i b n Hinv Hall Hki Hmid; [cbn; auto|].
+  induction mid as [|j rest IH]; intros st i b n Hinv Hall Hsafe Hki Hmid; [cbn; auto|].
   inversion Hmid as [|x y Hj Hrest]; subst. rewrite grun_cons. cbn [fst].
   destruct (IH (fst (gstep st j)) i b n) as [H1 [H2 H3]]; auto.
   - apply glock_inv_gstep. exact Hinv.
   - apply all_reqs_gstep; auto using lock_respecting_freeze.
+  - apply sess_safe_gstep; [exact Hinv|exact Hsafe].
   - apply holder_kept; auto.
-  - split; [rewrite H1; apply (held_object_stable st i j); auto|]. split; [exact H2|].
+  - split; [rewrite H1; apply (held_object_stable_partial st i j); eauto using sess_safe_coherent|]. split; [exact H2|].
     rewrite H3. apply gstep_other_threads. auto.
+Qed.
+
+(* in the states reachable from a well-formed store no guard on the sessions is left (only the
+   length of the schedule against the id counter) *)
+Theorem held_object_stable_reachable s0 progs sched i j b n : sessions_wf s0 ->
+  s_upcount s0 + Z.of_nat (length sched) <= int64_max ->
+  let st := fst (grun (init_g s0 progs) sched) in
+  all_reqs lock_respecting st -> In ((b, n), i) (g_holders st) -> j <> i ->
+  find_obj (g_store (fst (gstep st j))) b n = find_obj (g_store st) b n.
+Proof.
+  intros Hwf Hb st Hall Hki Hne. apply (held_object_stable_partial st i j); auto.
+  - apply glock_inv_reachable.
+  - apply (sess_safe_coherent 0). apply sess_safe_reachable; [exact Hwf|]. rewrite Nat.add_0_r. exact Hb.
 Qed.
 
 (* ---- item 6: no lost update ---- *)
@@ -1154,21 +1701,22 @@ Qed.
 Lemma key_opt_dec (a b : option (str * str)) : {a = b} + {a <> b}.
 Proof. repeat decide equality. Qed.
 
-(* an object changes only by a commit step whose request locks that very object *)
+(* an object changes only by a commit step whose request locks that very object (its key in the
+   store of the commit step) *)
 Theorem object_changes_only_by_own_key_commit st j b n : all_reqs lock_respecting st ->
   find_obj (g_store (fst (gstep st j))) b n <> find_obj (g_store st) b n ->
-  exists e, step_effect st j = Some e /\ effect_key e = Some (b, n).
+  exists e, step_effect st j = Some e /\ effect_key (g_store st) e = Some (b, n).
 Proof.
   intros Hall Hch. rewrite step_effect_store in Hch. destruct (step_effect st j) as [e|] eqn:E; [|congruence].
-  exists e. split; [reflexivity|]. destruct (key_opt_dec (effect_key e) (Some (b, n))) as [H|H]; [exact H|].
+  exists e. split; [reflexivity|]. destruct (key_opt_dec (effect_key (g_store st) e) (Some (b, n))) as [H|H]; [exact H|].
   exfalso. apply Hch. apply effect_frame; [|exact H]. eapply step_effect_respecting; eauto.
 Qed.
 
-(* no commit on key k in the schedule *)
+(* no commit on key k in the schedule (each effect's key in the store of its commit step) *)
 Fixpoint quiet_on (st : gstate) (sched : list nat) (k : str * str) : Prop :=
   match sched with
   | [] => True
-  | i :: rest => (forall e, step_effect st i = Some e -> effect_key e <> Some k)
+  | i :: rest => (forall e, step_effect st i = Some e -> effect_key (g_store st) e <> Some k)
                  /\ quiet_on (fst (gstep st i)) rest k
   end.
 
@@ -1195,14 +1743,15 @@ Proof.
   apply quiet_object_unchanged; auto using all_reqs_gstep, lock_respecting_freeze.
 Qed.
 
-(* the guard of held_object_stable is needed: a bucket deletion, and the completion of a resumable
-   upload, change an object whose lock another thread holds *)
+(* ---- the guards are needed, and the resumable PUT does take the lock ---- *)
+Definition otag (o : outcome) : Z := match o with OAt => 1 | OBlocked => 2 | ODone r => r_status r | OIdle => 0 end.
 Definition c07_b : str := [98]%N.
 Definition c07_n : str := [110]%N.
 Definition c07_cp0 : cparams := cp_lit [].
 Definition c07_up (d : bytes) : req := RUploadMedia c07_b c07_n [116]%N d c07_cp0.
 Definition c07_s1 : state := fst (handle init_state (c07_up [1]%N)).
 
+(* a bucket deletion removes an object whose lock another thread holds *)
 Lemma held_object_stable_refuted_delete_bucket :
   let st := fst (gstep (init_g c07_s1 [[c07_up [2]%N]; [RDeleteBucket c07_b c07_cp0]]) 0) in
   In ((c07_b, c07_n), 0%nat) (g_holders st)
@@ -1210,15 +1759,72 @@ Lemma held_object_stable_refuted_delete_bucket :
   /\ find_obj (g_store (fst (gstep st 1))) c07_b c07_n = None.
 Proof. cbn zeta. split; [left; reflexivity|]. split; [vm_compute; discriminate|vm_compute; reflexivity]. Qed.
 
-Lemma held_object_stable_refuted_resumable_put :
+(* an upload parked holding the lock of (b, n); a second thread whose request is the completing
+   PUT of a resumable session for (b, n): its key in that store is (b, n), its step is blocked and
+   changes nothing; once the holder has committed it takes the lock, parks and commits in turn *)
+Lemma resumable_put_blocked_by_holder :
   let s2 := fst (handle c07_s1 (RResumableInit c07_b false (mkUpMeta c07_n [116]%N 0 []) c07_cp0)) in
   let put := RResumablePut [49]%N (Some [98; 121; 116; 101; 115; 32; 48; 45; 48; 47; 49]%N) [9]%N in
   let st := fst (gstep (init_g s2 [[c07_up [2]%N]; [put]]) 0) in
   In ((c07_b, c07_n), 0%nat) (g_holders st)
+  /\ lock_key (g_store st) put = Some (c07_b, c07_n)
   /\ (exists o, find_obj (g_store st) c07_b c07_n = Some o /\ o_data o = [1]%N)
-  /\ (exists o, find_obj (g_store (fst (gstep st 1))) c07_b c07_n = Some o /\ o_data o = [9]%N).
+  /\ gstep st 1 = (st, OBlocked)
+  /\ map otag (snd (grun st [1; 0; 1; 1]%nat)) = [2; 200; 1; 200]
+  /\ (exists o, find_obj (g_store (fst (grun st [1; 0; 1; 1]%nat))) c07_b c07_n = Some o /\ o_data o = [9]%N).
 Proof.
-  cbn zeta. split; [left; reflexivity|]. split; eexists; (split; [vm_compute; reflexivity|reflexivity]).
+  cbn zeta. split; [left; reflexivity|]. split; [vm_compute; reflexivity|].
+  split; [eexists; split; [vm_compute; reflexivity|reflexivity]|].
+  split; [vm_compute; reflexivity|]. split; [vm_compute; reflexivity|].
+  eexists; split; [vm_compute; reflexivity|reflexivity].
+Qed.
+
+(* non-vacuity of the guards: a state reachable from a well-formed store in which a resumable PUT
+   is parked holding the lock of its session's object (thread 0 has committed, thread 1 is at its
+   yield) *)
+Lemma sess_safe_nonvacuous :
+  let s2 := fst (handle c07_s1 (RResumableInit c07_b false (mkUpMeta c07_n [116]%N 0 []) c07_cp0)) in
+  let put := RResumablePut [49]%N (Some [98; 121; 116; 101; 115; 32; 48; 45; 48; 47; 49]%N) [9]%N in
+  let st := fst (grun (init_g s2 [[c07_up [2]%N]; [put]]) [0; 1; 0; 1]%nat) in
+  sessions_wf s2 /\ glock_inv st /\ all_reqs lock_respecting st /\ gsess_inv st /\ sess_safe 5 st
+  /\ parked_put st 1 [49]%N (c07_b, c07_n).
+Proof.
+  cbn zeta.
+  assert (Hwf : sessions_wf (fst (handle c07_s1 (RResumableInit c07_b false (mkUpMeta c07_n [116]%N 0 []) c07_cp0)))).
+  { apply handle_sessions_wf. apply handle_sessions_wf. apply sessions_wf_init. }
+  split; [exact Hwf|]. split; [apply glock_inv_reachable|]. split.
+  { apply all_reqs_grun; [apply lock_respecting_freeze|]. apply all_reqs_init. repeat constructor. }
+  split; [apply gsess_inv_reachable; [exact Hwf|vm_compute; discriminate]|].
+  split; [apply sess_safe_reachable; [exact Hwf|vm_compute; discriminate]|].
+  exists (mkGThread [RResumablePut [49]%N (Some [98; 121; 116; 101; 115; 32; 48; 45; 48; 47; 49]%N) [9]%N] (GHold None)),
+         (Some [98; 121; 116; 101; 115; 32; 48; 45; 48; 47; 49]%N), [9]%N, [], None.
+  split; [vm_compute; reflexivity|]. split; [reflexivity|]. split; [reflexivity|]. vm_compute. auto.
+Qed.
+
+(* the guard sess_coherent of held_object_stable_partial is needed.  The store s0 is NOT well
+   formed: it has a session under id "1" (for object (b, m)) although its id counter is still 0.
+   Thread 0 parks holding (b, n); thread 1, the completing PUT of session "1", parks holding (b, m);
+   thread 2 initiates an upload of (b, n), which gets id "1" again and replaces the session; the
+   commit of thread 1 looks the session up again and stores (b, n), whose lock thread 0 holds *)
+Lemma held_object_stable_refuted_stale_session :
+  let s0 := set_uploads c07_s1 0 [([49]%N, mkUpload c07_b [109]%N [116]%N 0 [] empty_conds [])] in
+  let put := RResumablePut [49]%N (Some [98; 121; 116; 101; 115; 32; 48; 45; 48; 47; 49]%N) [9]%N in
+  let st := fst (grun (init_g s0 [[c07_up [2]%N]; [put];
+                                  [RResumableInit c07_b false (mkUpMeta c07_n [116]%N 0 []) c07_cp0]]) [0; 1; 2]%nat) in
+  glock_inv st /\ all_reqs lock_respecting st
+  /\ In ((c07_b, c07_n), 0%nat) (g_holders st)
+  /\ In ((c07_b, [109]%N), 1%nat) (g_holders st)
+  /\ (exists o, find_obj (g_store st) c07_b c07_n = Some o /\ o_data o = [1]%N)
+  /\ (exists o, find_obj (g_store (fst (gstep st 1))) c07_b c07_n = Some o /\ o_data o = [9]%N)
+  /\ ~ sessions_wf s0.
+Proof.
+  cbn zeta. split; [apply glock_inv_reachable|]. split.
+  { apply all_reqs_grun; [apply lock_respecting_freeze|]. apply all_reqs_init. repeat constructor. }
+  split; [vm_compute; auto|]. split; [vm_compute; auto|].
+  split; [eexists; split; [vm_compute; reflexivity|reflexivity]|].
+  split; [eexists; split; [vm_compute; reflexivity|reflexivity]|].
+  intros [_ [_ H]]. destruct (H [49]%N _ eq_refl) as [z [E Hz]]. cbn [set_uploads s_upcount] in Hz.
+  assert (z = 0) by lia. subst z. vm_compute in E. discriminate.
 Qed.
 
 (* ---- item 5: a metageneration-conditioned patch ---- *)
@@ -1285,9 +1891,11 @@ Definition patched (p : patch) (o : obj) : obj :=
         (match pt_meta p with Some kv => merge_meta (o_meta o) kv | None => o_meta o end).
 
 (* from check to mutation: the patch whose preconditions passed on object o at its yield (OAt)
-   is applied, whatever the other threads do meanwhile, to that same object o *)
-Theorem held_patch_applies_to_checked_object st i b n p cp mid :
-  glock_inv st -> all_reqs lock_respecting st ->
+   is applied, whatever the other threads do meanwhile, to that same object o.
+   Full statement (false without the guard, as held_object_stable is): the same without
+   sess_safe (S (length mid)) st — the guard covers the step to the yield and the steps of mid. *)
+Theorem held_patch_applies_to_checked_object_partial st i b n p cp mid :
+  glock_inv st -> all_reqs lock_respecting st -> sess_safe (S (length mid)) st ->
   cur_req st i = Some (RPatch b n p cp, GNew) -> snd (gstep st i) = OAt ->
   Forall (fun j => j <> i) mid ->
   let st2 := fst (grun (fst (gstep st i)) mid) in
@@ -1299,9 +1907,10 @@ Theorem held_patch_applies_to_checked_object st i b n p cp mid :
     /\ snd (gstep st2 i) = ODone (if pt_bad p then err 400 else mkResp 200 (BMeta (view b n (patched p o))))
     /\ (pt_bad p = false -> find_obj (g_store (fst (gstep st2 i))) b n = Some (patched p o)).
 Proof.
-  intros Hinv Hall Hcur Ho Hmid st2.
+  intros Hinv Hall Hsafe Hcur Ho Hmid st2.
   pose proof (gstep_spec_ok st i) as Hs. rewrite Ho in Hs.
   assert (Hinv1 : glock_inv (fst (gstep st i))) by (apply glock_inv_gstep; exact Hinv).
+  assert (Hsafe1 : sess_safe (length mid) (fst (gstep st i))) by (apply sess_safe_gstep; assumption).
   assert (Hall1 : all_reqs lock_respecting (fst (gstep st i))) by (apply all_reqs_gstep; auto using lock_respecting_freeze).
   remember (fst (gstep st i)) as st1 eqn:Est1.
   inversion Hs as [| |th r0 rest k Hth Htodo Hprog Hk Hearly Hho Hry Hst| |]. clear Hs.
@@ -1320,7 +1929,7 @@ Proof.
   exists o, c. split; [reflexivity|]. split; [reflexivity|]. split; [exact Ev|].
   (* the other threads *)
   assert (Hki : In ((b, n), i) (g_holders st1)) by (rewrite <- Hst; left; reflexivity).
-  destruct (held_object_stable_run mid st1 i b n Hinv1 Hall1 Hki Hmid) as [H1 [H2 H3]]. fold st2 in H1, H2, H3.
+  destruct (held_object_stable_run_partial mid st1 i b n Hinv1 Hall1 Hsafe1 Hki Hmid) as [H1 [H2 H3]]. fold st2 in H1, H2, H3.
   assert (Hs1 : g_store st1 = g_store st) by (rewrite <- Hst; reflexivity).
   assert (Hth1 : nth_error (g_threads st1) i = Some (mkGThread (RPatch b n p cp :: rest) (GHold None))).
   { rewrite <- Hst. cbn [g_threads]. rewrite (nth_error_upd_same _ _ _ _ Hth). reflexivity. }
@@ -1368,7 +1977,6 @@ Qed.
    finding GCS-10 and is outside the memory-store interleaving model proved about here. *)
 
 (* ---- concrete material for the non-vacuity examples ---- *)
-Definition otag (o : outcome) : Z := match o with OAt => 1 | OBlocked => 2 | ODone r => r_status r | OIdle => 0 end.
 Definition c07_g : Z := clock0 + 1.                    (* the generation of the object in c07_s1 *)
 Definition c07_cup (d : bytes) : req := RUploadMedia c07_b c07_n [116]%N d (cp_lit (print_int c07_g)).
 Definition c07_dup (d : bytes) : req := RUploadMedia c07_b c07_n [116]%N d (cp_lit [48]%N).
